@@ -121,20 +121,37 @@ def scalar_markers(ef, df):
                         e = hir.strip(flds['floatfactor'])
                         if e.get('k') == 'Lit' and e['v'].startswith('Float('):
                             wrote = float(re.match(r'^Float\("([^"]*)"', e['v']).group(1))
-    # decoder guard around `s *= Scalar4::from(value.floatfactor)`
+    # decoder guard around the multiplication by Scalar4::from(<the float factor>) (`s *= ..`, `s = s * ..`, `acc * ..`)
+    lets = hir.let_env(df)
+
+    def is_ff(e):
+        return 'floatfactor' in hir.pp_resolved(e, lets)
     guard = None
+    found = False
     pm = hir.parent_map(df['hir'])
     for n in hir.nodes(df['hir']):
-        if n.get('k') == 'AssignOp' and n['op'] == 'MulAssign' and 'floatfactor' in hir.pp(n['r']):
+        mul = (n.get('k') == 'AssignOp' and n['op'] == 'MulAssign' and is_ff(n['r'])) or (n.get('k') == 'Binary' and n['op'] == 'Mul' and (is_ff(n['r']) or is_ff(n['l'])))
+        if mul:
+            found = True
+            conds = []
             for a, slot in hir.ancestors(n, pm):
-                if a.get('k') == 'If' and slot == 'then':
-                    guard = a['cond']
-                    break
+                if a.get('k') == 'If' and slot in ('then', 'else'):
+                    conds.append((a['cond'], slot == 'then'))
+                elif a.get('k') in ('Match', 'Closure', 'For', 'While', 'Loop'):
+                    return wrote, None, 'the multiplication by the float factor sits inside a %s: not understood' % a['k']
+            if len(conds) == 1:
+                guard = conds[0]
+            elif conds:
+                return wrote, None, 'the multiplication by the float factor is nested in %d conditions: not understood' % len(conds)
+            break
+    if not found:
+        return wrote, None, 'no multiplication by the float factor found: not understood'
     if guard is None:
-        return wrote, None, 'no guard: the float factor is always multiplied in'
+        return wrote, True, 'no guard: the float factor is always multiplied in'
+    guard, positive = guard
 
     def ev(e, x):
-        e = hir.strip(e)
+        e = hir.resolve(e, lets)
         k = e.get('k')
         if k == 'Binary' and e['op'] == 'And':
             return ev(e['l'], x) and ev(e['r'], x)
@@ -142,21 +159,23 @@ def scalar_markers(ef, df):
             return ev(e['l'], x) or ev(e['r'], x)
         if k == 'Unary' and e['op'] == 'Not':
             return not ev(e['e'], x)
-        if k == 'MethodCall' and e['name'] == 'is_zero' and 'floatfactor' in hir.pp(e['recv']):
+        if k == 'MethodCall' and e['name'] == 'is_zero' and is_ff(e['recv']):
             return x == 0.0
-        if k == 'MethodCall' and e['name'] == 'is_one' and 'floatfactor' in hir.pp(e['recv']):
+        if k == 'MethodCall' and e['name'] == 'is_one' and is_ff(e['recv']):
             return x == 1.0
-        if k == 'Binary' and e['op'] in ('Eq', 'Ne') and 'floatfactor' in hir.pp(e['l']):
-            r = hir.strip(e['r'])
-            if r.get('k') == 'Lit' and r['v'].startswith('Float('):
-                c = float(re.match(r'^Float\("([^"]*)"', r['v']).group(1))
-                return (x == c) if e['op'] == 'Eq' else (x != c)
+        if k == 'Binary' and e['op'] in ('Eq', 'Ne', 'Lt', 'Le', 'Gt', 'Ge'):
+            for a, b, flip in ((e['l'], e['r'], False), (e['r'], e['l'], True)):
+                r = hir.resolve(b, lets)
+                if is_ff(a) and r.get('k') == 'Lit' and r['v'].startswith('Float('):
+                    c = float(re.match(r'^Float\("([^"]*)"', r['v']).group(1))
+                    op = e['op'] if not flip else {'Lt': 'Gt', 'Le': 'Ge', 'Gt': 'Lt', 'Ge': 'Le'}.get(e['op'], e['op'])
+                    return {'Eq': x == c, 'Ne': x != c, 'Lt': x < c, 'Le': x <= c, 'Gt': x > c, 'Ge': x >= c}[op]
         raise ValueError(hir.pp(e)[:40])
     try:
-        multiplies = ev(guard, wrote) if wrote is not None else None
+        multiplies = (ev(guard, wrote) == positive) if wrote is not None else None
     except ValueError as ex:
         return wrote, None, 'guard not understood: %s' % ex
-    return wrote, multiplies, hir.pp(guard)
+    return wrote, multiplies, hir.pp_resolved(guard, lets)
 
 
 def serde_attrs(path):
@@ -236,6 +255,108 @@ def polar_angle_options(ef):
     return field_of(polar['args'][1], 'limit_denom'), hir.pp(polar)[:70]
 
 
+def reader_marker_condition(rf, rp, facts):
+    """the reader must treat exactly (typ == H && is_edge) as a virtual Hadamard edge: the condition that guards the insertion into the
+    marker table is evaluated for every vertex type and both values of is_edge.  -> (verdict, message)"""
+    variants = [v['name'] for v in facts['adts']['graph::VType']['variants']]
+    lets = hir.let_env(rf)
+    conds = [n for n in hir.nodes(rf['hir']) if n.get('k') == 'If' and 'is_edge' in hir.pp_resolved(n['cond'], lets)]
+    if len(conds) != 1:
+        return None, 'expected one condition on is_edge in the reader, found %d' % len(conds)
+
+    class U(Exception):
+        pass
+
+    def ev(e, ty, ie):
+        e = hir.resolve(e, lets)
+        k = e.get('k')
+        b = hir.lit_bool(e)
+        if b is not None:
+            return b
+        if k == 'Binary' and e['op'] in ('And', 'Or'):
+            l = ev(e['l'], ty, ie)
+            if e['op'] == 'And':
+                return l and ev(e['r'], ty, ie)
+            return l or ev(e['r'], ty, ie)
+        if k == 'Unary' and e['op'] == 'Not':
+            return not ev(e['e'], ty, ie)
+        p = rp.of(e)
+        if re.match(r'^self\.node_vertices\[\*\]\.1\.data\.is_edge$', p):
+            return ie
+        if k == 'Binary' and e['op'] in ('Eq', 'Ne'):
+            for a, c in ((e['l'], e['r']), (e['r'], e['l'])):
+                if re.match(r'^self\.node_vertices\[\*\]\.1\.data\.typ$', rp.of(a)):
+                    dp = hir.def_path(hir.resolve(c, lets)) or ''
+                    if dp.startswith('graph::VType::'):
+                        r = ty == dp.rsplit('::', 1)[1]
+                        return r if e['op'] == 'Eq' else not r
+        if k == 'Match' and all(hir.lit_bool(hir.strip(a['body'])) is not None and not a.get('guard') for a in e['arms']) and re.match(r'^self\.node_vertices\[\*\]\.1\.data\.typ$', rp.of(e['scrut'])):
+            for a in e['arms']:
+                pats = a['pat']['sub'] if a['pat'].get('k') == 'Or' else [a['pat']]
+                for q in pats:
+                    if q.get('k') == 'Wild' or (q.get('k') == 'Path' and (q['res'].get('path') or '').rsplit('::', 1)[-1] == ty):
+                        return hir.lit_bool(hir.strip(a['body']))
+                    if q.get('k') not in ('Wild', 'Path'):
+                        raise U(hir.pp_pat(q))
+            raise U('no arm')
+        raise U(hir.pp(e)[:40])
+    n = conds[0]
+    # which branch records the marker: the one that inserts into a map and skips the vertex
+    then_marks = any(c.get('k') == 'MethodCall' and c['name'] == 'insert' for c in hir.calls(n['then']))
+    else_marks = n.get('else') is not None and any(c.get('k') == 'MethodCall' and c['name'] == 'insert' for c in hir.calls(n['else']))
+    if then_marks == else_marks:
+        return None, 'which branch of the is_edge condition records the virtual Hadamard node could not be established'
+    try:
+        table = {(ty, ie): (ev(n['cond'], ty, ie) == then_marks) for ty in variants for ie in (True, False)}
+    except U as ex:
+        return None, 'condition on is_edge not understood: %s' % ex
+    wrong = sorted(k for k, v in table.items() if v != (k == ('H', True)))
+    return (not wrong), 'the reader must treat exactly (typ == H && is_edge) as a virtual Hadamard edge; it also / does not treat as one: %s' % wrong[:4]
+
+
+def reader_refuse(rf, rp):
+    """virtual Hadamard nodes are re-fused with ONE smart Hadamard edge between their two recorded neighbours, after establishing that there are exactly two"""
+    fuse = [c for c in hir.calls(rf['hir']) if c.get('k') == 'MethodCall' and c['name'] == 'add_edge_smart' and (hir.def_path(hir.resolve(c['args'][2], hir.let_env(rf))) or '').endswith('EType::H')]
+    if len(fuse) != 1:
+        raw = [c for c in hir.calls(rf['hir']) if c.get('k') == 'MethodCall' and c['name'] in ('add_edge', 'add_edge_with_type') and any((hir.def_path(a) or '').endswith('EType::H') for a in c['args'])]
+        return (False if (not fuse and raw) else None), 'expected one add_edge_smart(.., .., EType::H) in the reader, found %d' % len(fuse)
+    c = fuse[0]
+    a, b = rp.of(c['args'][0]), rp.of(c['args'][1])
+    pm = hir.parent_map(rf['hir'])
+    # (1) slice pattern of exactly two elements binds the endpoints
+    for n in hir.nodes(rf['hir']):
+        if n.get('k') in ('Let', 'LetCond') and n.get('init') is not None:
+            pt = n['pat']
+            while pt.get('k') == 'Ref':
+                pt = pt['sub']
+            if pt.get('k') == 'Slice' and pt.get('mid') is None and len((pt.get('pre') or []) + (pt.get('post') or [])) == 2:
+                ids = set(i for _n, i in hir.bindings(pt))
+                used = set(hir.local(hir.strip(x))[1] for x in c['args'][:2] if hir.local(hir.strip(x)))
+                if ids and ids == used:
+                    return True, ''
+    # (2) indexed [0] / [1] of one collection under a length test against 2
+    ma, mb = re.match(r'^(.*)\[0\]$', a), re.match(r'^(.*)\[1\]$', b)
+    if not (ma and mb and ma.group(1) == mb.group(1)):
+        ma, mb = re.match(r'^(.*)\[0\]$', b), re.match(r'^(.*)\[1\]$', a)
+    if ma and mb and ma.group(1) == mb.group(1):
+        coll = ma.group(1)
+        tests = []
+        for n in hir.nodes(rf['hir']):
+            if n.get('k') == 'Binary' and n['op'] in ('Eq', 'Ne', 'Lt', 'Gt', 'Le', 'Ge'):
+                for x, y in ((n['l'], n['r']), (n['r'], n['l'])):
+                    if rp.of(x) == coll + '.len()' and hir.lit_int(y) is not None:
+                        tests.append((n['op'], hir.lit_int(y)))
+            if n.get('k') == 'Match' and rp.of(n['scrut']) == coll + '.len()':
+                tests.append(('match', 2))
+        if any(op in ('Eq', 'Ne', 'match') and k == 2 for op, k in tests):
+            return True, ''
+        if not tests:
+            return False, 'the two neighbours of a virtual Hadamard node are read as %s[0] and %s[1] without any test of how many there are: a marker with one or three neighbours is silently accepted' % (coll, coll)
+        return None, 'the neighbour count of a virtual Hadamard node is tested as %s: not understood' % tests
+    return None, 'how the endpoints of the re-fused Hadamard edge (%s, %s) relate to the recorded neighbours was not established' % (a[:50], b[:50])
+
+
+
 def _run_own(ck):
     facts = ck.facts
     ck.decided('D1 field provenance agrees between writer and reader: type, phase, coordinates (through Coord::new / coord() / qubit() / row()), input/output order through an ORDERED map',
@@ -251,22 +372,47 @@ def _run_own(ck):
     if not W or not R:
         raise Exception('JsonGraph::from_graph / to_graph not found (anchor-missing)')
     wf, rf = ck.fn(W), ck.fn(R)
-    # ---- D1
-    w = writer_fields(wf)
-    r = reader_fields(rf)
-    ok_typ = w.get('typ') == 'typ' and any('graph.vertex_type(v)' in x for x in w['env'].get('typ', []))
-    vsrc = w.get('value') or ''
-    if vsrc in w['env']:
-        vsrc = ' '.join(w['env'][vsrc])
-    ok_val = 'from_phase(phase' in vsrc.replace(' ', '').replace('JsonPhase::', '') and any('graph.phase(v)' in x for x in w['env'].get('phase', []))
-    ck.ob('R-DATAFLOW-json', 'writer/type-and-phase', ok_typ and ok_val, ck.site(W), 'the vertex record must carry vertex_type(v) as typ and phase(v) as value (typ <- %s, value <- %s)' % (w.get('typ'), w.get('value')), sample={'typ': w.get('typ'), 'value': w.get('value')})
-    spiders = [d for d in r['vdata'] if 'phase' in d]
-    ok = len(spiders) == 1 and spiders[0].get('ty') == 'attrs.data.typ' and spiders[0].get('phase') == 'phase' and any('attrs.data.value' in x[0] for x in r['env'].get('phase', []))
-    ck.ob('R-DATAFLOW-json', 'reader/type-and-phase', ok, ck.site(R), 'the decoded vertex must take its type from data.typ and its phase from data.value (%s)' % spiders)
-    ck.ob('R-DATAFLOW-json', 'writer/coordinates', w['coords'] == ['(coord.x, coord.y)'] and any('graph.coord(v)' in x for x in w['env'].get('coord', [])), ck.site(W), 'coordinates must be written as (coord.x, coord.y) of graph.coord(v): %s' % w['coords'])
-    okc = all(d == {'x': 'attrs.annotation.coord.0', 'y': 'attrs.annotation.coord.1'} for d in r['coord']) and len(r['coord']) >= 2
-    okv = all(d.get('qubit') in ('coord.qubit()', 'new_coord.qubit()') and d.get('row') in ('coord.row()', 'new_coord.row()') for d in r['vdata'])
-    ck.ob('R-DATAFLOW-json', 'reader/coordinates', okc and okv, ck.site(R), 'the reader must rebuild Coord{x: coord.0, y: coord.1} and take qubit()/row() from it: %s %s' % (r['coord'], [(d.get('qubit'), d.get('row')) for d in r['vdata']]))
+    # ---- D1 (round 2: canonical access paths — independent of the names of locals, of temporaries and of loop spelling)
+    from ..hfacts import APaths
+    wp, rp = APaths(wf), APaths(rf)
+
+    def v3(ok, *texts):
+        """True when the expected source is read; False when a DIFFERENT, fully understood source is read; None when the path is not canonical"""
+        if ok:
+            return True
+        return None if any('?' in t for t in texts) else False
+    # writer: the vertex record
+    recs = [dict((a, wp.of(b)) for a, b in n['fields']) for n in struct_lits(wf, 'json::VertexData') if 'value' in dict(n['fields'])]
+    typ = recs[0].get('typ', '?') if len(recs) == 1 else '?'
+    val = recs[0].get('value', '?') if len(recs) == 1 else '?'
+    m1 = re.match(r'^param#0\.vertex_type\((.*)\)$', typ)
+    m2 = re.match(r'^from_phase\(param#0\.phase\((.*?)\), ', val)
+    ok = bool(m1 and m2 and m1.group(1) == m2.group(1))
+    ck.ob3('R-DATAFLOW-json', 'writer/type-and-phase', v3(ok, typ, val.split(', PhaseOptions')[0]) if len(recs) == 1 else None, ck.site(W),
+           'the vertex record must carry vertex_type(v) as typ and phase(v) as value of the same vertex (typ <- %s, value <- %s)' % (typ, val[:80]), sample={'typ': typ, 'value': val[:120]})
+    # reader: the decoded spider
+    vd = [dict((a, rp.of(b)) for a, b in n['fields']) for n in struct_lits(rf, 'graph::VData')]
+    spiders = [d for d in vd if 'phase' in d]
+    if len(spiders) == 1:
+        ty, ph = spiders[0].get('ty', '?'), spiders[0]['phase']
+        m = re.match(r'^(self\.node_vertices\[\*\]\.1)\.data\.typ$', ty)
+        ok = bool(m) and (m.group(1) + '.data.value.to_phase()') in ph
+        # the phase path contains closures (error mapping): only the part up to the value access decides
+        ck.ob3('R-DATAFLOW-json', 'reader/type-and-phase', v3(ok, ty, '' if 'data.value' in ph or 'data.' not in ph else ph.split('.map_err')[0]), ck.site(R),
+               'the decoded vertex must take its type from data.typ and its phase from data.value of the same node record (ty <- %s, phase <- %s)' % (ty, ph[:90]))
+    else:
+        ck.ob3('R-DATAFLOW-json', 'reader/type-and-phase', None, ck.site(R), 'expected exactly one VData literal with a phase in the reader, found %d' % len(spiders))
+    # writer: coordinates
+    coords = sorted(set(dict((a, wp.of(b)) for a, b in n['fields']).get('coord', '?') for n in struct_lits(wf, 'json::VertexAnnotations')))
+    plain = [c for c in coords if 'avg_coord' not in c]
+    okc = bool(plain) and all(re.match(r'^\(param#0\.coord\((.*)\)\.x, param#0\.coord\(\1\)\.y\)$', c) for c in plain)
+    ck.ob3('R-DATAFLOW-json', 'writer/coordinates', v3(okc, *plain) if plain else None, ck.site(W), 'coordinates must be written as (coord(v).x, coord(v).y): %s' % plain)
+    # reader: coordinates
+    own = [d for d in vd if 'avg_coord' not in d.get('qubit', '')]
+    pat_q = r'^Coord\{x: (self\.(?:node|wire)_vertices\[\*\]\.1)\.annotation\.coord\.0, y: \1\.annotation\.coord\.1\}\.%s\(\)$'
+    okv = len(own) >= 2 and all(re.match(pat_q % 'qubit', d.get('qubit', '')) and re.match(pat_q % 'row', d.get('row', '')) for d in own)
+    ck.ob3('R-DATAFLOW-json', 'reader/coordinates', v3(okv, *[d.get('qubit', '?') + d.get('row', '?') for d in own]) if len(own) >= 2 else None, ck.site(R),
+           'the reader must rebuild Coord{x: coord.0, y: coord.1} and take qubit()/row() from it: %s' % [(d.get('qubit'), d.get('row')) for d in own])
     cw, order, cr = coord_tables(facts)
     # coord(): Coord::new(a, b) with x <- arg order[0]; writer components [x-source, y-source]
     ok = False
@@ -274,32 +420,52 @@ def _run_own(ck):
         xsrc, ysrc = cw[order[0]], cw[order[1]]
         comp = {'x': xsrc, 'y': ysrc}
         ok = comp.get(cr['qubit']) == 'qubit' and comp.get(cr['row']) == 'row'
-    ck.ob('R-DATAFLOW-json', 'coord-components-agree', ok, ck.site('graph::GraphLike::coord'), 'coord() stores (x <- %s, y <- %s) but Coord::qubit reads .%s and Coord::row reads .%s' % (cw[order[0]] if cw and order else '?', cw[order[1]] if cw and order else '?', cr['qubit'], cr['row']),
-          sample={'coord()': str(cw), 'qubit()': cr['qubit'], 'row()': cr['row']})
-    okw = 'graph.inputs().iter().position' in (w.get('input') and ' '.join(w['env'].get('input', [])) or '') and 'graph.outputs().iter().position' in ' '.join(w['env'].get('output', []))
-    ck.ob('R-DATAFLOW-json', 'writer/io-order', okw and w.get('input') == 'input' and w.get('output') == 'output', ck.site(W), 'a boundary must record its position in inputs() / outputs()')
-    io_ok = True
+    ck.ob3('R-DATAFLOW-json', 'coord-components-agree', (None if (not cw or not order or '?' in cw or '?' in cr.values()) else ok), ck.site('graph::GraphLike::coord'),
+           'coord() stores (x <- %s, y <- %s) but Coord::qubit reads .%s and Coord::row reads .%s' % (cw[order[0]] if cw and order else '?', cw[order[1]] if cw and order else '?', cr['qubit'], cr['row']),
+           sample={'coord()': str(cw), 'qubit()': cr['qubit'], 'row()': cr['row']})
+    # writer: boundary order
+    ann = [dict((a, wp.of(b)) for a, b in n['fields']) for n in struct_lits(wf, 'json::VertexAnnotations') if 'input' in dict(n['fields'])]
+    if len(ann) == 1:
+        gi, go = ann[0]['input'], ann[0].get('output', '?')
+        okw = gi.startswith('param#0.inputs().iter().position(') and go.startswith('param#0.outputs().iter().position(')
+        ck.ob3('R-DATAFLOW-json', 'writer/io-order', v3(okw, gi.split('(?')[0], go.split('(?')[0]), ck.site(W), 'a boundary must record its position in inputs() / outputs() (input <- %s, output <- %s)' % (gi[:60], go[:60]))
+    else:
+        ck.ob3('R-DATAFLOW-json', 'writer/io-order', None, ck.site(W), 'expected one boundary annotation literal with input/output, found %d' % len(ann))
+    # reader: boundary order restored through an ORDERED map keyed by the recorded position
+    io_res = {}
     for nm in ('inputs', 'outputs'):
-        tys = [t for _i, t in r['env'].get(nm, [])]
-        io_ok = io_ok and any('BTreeMap' in t for t in tys)
-    sets = {c['name']: hir.pp(c['args'][0]) for c in hir.calls(rf['hir']) if c.get('k') == 'MethodCall' and c['name'] in ('set_inputs', 'set_outputs')}
-    io_ok = io_ok and 'inputs.into_values()' in sets.get('set_inputs', '') and 'outputs.into_values()' in sets.get('set_outputs', '')
-    ins = {hir.local_name(c['recv']): hir.pp(c['args'][0]) for c in hir.calls(rf['hir']) if c.get('k') == 'MethodCall' and c['name'] == 'insert' and hir.local_name(c['recv']) in ('inputs', 'outputs')}
-    io_ok = io_ok and ins == {'inputs': 'input', 'outputs': 'output'}
-    ck.ob('R-DATAFLOW-json', 'reader/io-order', io_ok, ck.site(R), 'inputs and outputs must be restored in index order through an ordered map keyed by annotation.input / annotation.output (a hash map would scramble the order)')
+        st = [c for c in hir.calls(rf['hir']) if c.get('k') == 'MethodCall' and c['name'] == 'set_' + nm]
+        if len(st) != 1:
+            io_res[nm] = (None, 'set_%s called %d times' % (nm, len(st)))
+            continue
+        src = rp.of(st[0]['args'][0])
+        mm = re.match(r'^(var<([^#]*)>#\d+)\.(into_values|values)\(\)', src)
+        if not mm:
+            io_res[nm] = (None, 'set_%s(%s): source not recognised' % (nm, src[:70]))
+            continue
+        var, vty = mm.group(1), mm.group(2)
+        if 'BTreeMap' not in vty:
+            io_res[nm] = (False if 'HashMap' in vty else None, 'set_%s reads the values of a %s: only an ordered map restores the order' % (nm, vty))
+            continue
+        ins = [c for c in hir.calls(rf['hir']) if c.get('k') == 'MethodCall' and c['name'] == 'insert' and rp.of(c['recv']) == var]
+        keys = sorted(set(rp.of(c['args'][0]) for c in ins))
+        want = 'self.wire_vertices[*].1.annotation.%s.some' % nm[:-1]
+        io_res[nm] = (v3(keys == [want], *keys) if ins else None, 'the ordered map behind set_%s is keyed by %s, expected %s' % (nm, keys, want))
+    verdicts = [v for v, _m in io_res.values()]
+    ck.ob3('R-DATAFLOW-json', 'reader/io-order', False if False in verdicts else (None if None in verdicts else True), ck.site(R),
+           'inputs and outputs must be restored in index order through an ordered map keyed by annotation.input / annotation.output (a hash map would scramble the order): %s' % [m for _v, m in io_res.values()])
     # ---- D2
     marks = [n for n in struct_lits(wf, 'json::VertexData') if 'is_edge' in dict(n['fields'])]
-    ok = len(marks) == 1 and hir.lit_bool(dict(marks[0]['fields'])['is_edge']) is True and (hir.def_path(dict(marks[0]['fields'])['typ']) or '').endswith('VType::H')
-    ck.ob('R-TABLE-marker', 'writer/h-edge-marker', ok, ck.site(W), 'a Hadamard edge must be written as a node with typ = H and is_edge = true')
-    rec = [n for n in hir.nodes(rf['hir']) if n.get('k') == 'If' and 'is_edge' in hir.pp(n['cond'])]
-    okr = False
-    if rec:
-        c = hir.pp(rec[0]['cond']).replace(' ', '')
-        okr = 'attrs.data.typ==H' in c and 'attrs.data.is_edge' in c and '&&' in c and '||' not in c
-    ck.ob('R-TABLE-marker', 'reader/h-edge-marker', okr, ck.site(R), 'the reader must treat exactly (typ == H && is_edge) as a virtual Hadamard edge')
-    fuse = [c for c in hir.calls(rf['hir']) if c.get('k') == 'MethodCall' and c['name'] == 'add_edge_smart' and (hir.def_path(c['args'][2]) or '').endswith('EType::H')]
-    chk = [n for n in hir.nodes(rf['hir']) if n.get('k') == 'If' and 'neighbors.len()' in hir.pp(n['cond']) and '2' in hir.pp(n['cond'])]
-    ck.ob('R-TABLE-marker', 'reader/re-fuses-and-validates', len(fuse) == 1 and len(chk) == 1, ck.site(R), 'virtual Hadamard nodes must be re-fused with add_edge_smart(.., H) after checking they have exactly two neighbours')
+    if len(marks) == 1:
+        mk = dict((a, wp.of(b)) for a, b in marks[0]['fields'])
+        ck.ob3('R-TABLE-marker', 'writer/h-edge-marker', v3(mk.get('is_edge') == 'true' and mk.get('typ') == 'H', mk.get('is_edge', '?'), mk.get('typ', '?')), ck.site(W),
+               'a Hadamard edge must be written as a node with typ = H and is_edge = true (found typ = %s, is_edge = %s)' % (mk.get('typ'), mk.get('is_edge')))
+    else:
+        ck.ob3('R-TABLE-marker', 'writer/h-edge-marker', None, ck.site(W), 'expected one marker literal (VertexData with is_edge), found %d' % len(marks))
+    v_, m_ = reader_marker_condition(rf, rp, facts)
+    ck.ob3('R-TABLE-marker', 'reader/h-edge-marker', v_, ck.site(R), m_)
+    v_, m_ = reader_refuse(rf, rp)
+    ck.ob3('R-TABLE-marker', 'reader/re-fuses-and-validates', v_, ck.site(R), m_)
     raw = [c for c in hir.calls(rf['hir']) if c.get('k') == 'MethodCall' and c['name'] in ('add_edge', 'add_edge_with_type')]
     ck.ob('R-EDGE', 'reader/smart-insertion-only', not raw, ck.site(R), 'decoded edges come from untrusted input: only add_edge_smart may be used (%d raw insertions)' % len(raw))
     # ---- D3
@@ -354,7 +520,7 @@ def _run_own(ck):
         ck.fn(ek)
         ck.fn(dk)
         wrote, multiplies, guard = scalar_markers(facts['fns'][ek], facts['fns'][dk])
-        ck.ob('R-MARKER', 'scalar/floatfactor-neutral', wrote is not None and multiplies is False, ck.site(dk),
+        ck.ob3('R-MARKER', 'scalar/floatfactor-neutral', None if (wrote is None or multiplies is None) else (multiplies is False), ck.site(dk),
               'the exact branch of the encoder writes floatfactor = %s and the decoder (guard `%s`) multiplies it in: a float 1.0 is always flagged approximate, so an exact scalar comes back approximate and no longer compares equal' % (wrote, guard),
               sample={'written': wrote, 'decoder_guard': guard, 'decoder_multiplies': multiplies})
         lim, detail = polar_angle_options(facts['fns'][ek])
